@@ -209,12 +209,16 @@ class SyncInterpreter(BaseInterpreter[TContext, TEvent]):
         self._is_processing = True
         try:
             self._enter_states([self.machine])
+            # 🔄 Process any immediate "always" transitions upon startup,
+            #    still behind the guard: an event raised while settling (a
+            #    `raise` action, a `done.state.*`) must wait for the settled
+            #    configuration like any other, not be handled re-entrantly in
+            #    the middle of an entry.
+            self._process_transient_transitions()
         finally:
             self._is_processing = False
-        # 📬 Drain anything an entry action raised during that descent.
+        # 📬 Drain anything raised during the descent and the settling.
         self._process_event_queue()
-        # 🔄 Process any immediate "always" transitions upon startup.
-        self._process_transient_transitions()
 
         # Capture the post-transition state set after initialization
         post_states = set(self._active_state_nodes)
